@@ -2,5 +2,8 @@ From Coq Require Import Extraction ExtrOcamlBasic NArith ZArith.
 From SV Require Import SemiNaiveRam.
 Extraction Language OCaml.
 (* Z.of_N is listed only so that the inductive type z, which ocaml/common_io.ml mentions, exists
-   in the extracted module; the validator itself uses nat and N only. *)
-Extraction "snram_model.ml" stratum_check clause_check clause_perm Z.of_N.
+   in the extracted module; the validator itself uses nat and N only.
+   The records version (fields v_tests, v_empties, v_breaks) and stratum (field st_nullary) are built
+   by ocaml/snram_driver.ml field by field; stratum_check = frame_check, clause_check per clause,
+   nullary_check per clause. *)
+Extraction "snram_model.ml" stratum_check clause_check nullary_check clause_perm Z.of_N.
